@@ -25,8 +25,10 @@ ENTRIES = ['parse_dict', 'parse_text', 'parse_stream', 'construct', 'new_version
 # The error-family clause is stated for parsing and constructing; for store entry points only exceptions that
 # come out of the parse/construct step are judged (innermost library frame outside stix2/datastore), and the
 # failure-atomicity clause is checked for every failing call.
+# entries that are judged for the error family whatever frame raises: direct parsing / construction, and reading a stored *.json file
+# back through FileSystemSource (the source's job there IS parsing JSON text it is given by the disk)
 PARSE_ENTRIES = ('parse_dict', 'parse_text', 'parse_stream', 'construct', 'new_version_changes', 'bundle', 'bundle_dict', 'parse_observable',
-                 'late_registered', 'parse_observable20')
+                 'late_registered', 'parse_observable20', 'fs_read')
 JUNK = {
     'null': [None],
     'number': [0, -1, 1.5, 10 ** 30, 7, 10 ** 400, -(10 ** 310), 1e308, 5e-324],
@@ -296,7 +298,7 @@ class C17(Profile):
     probes = ['corruption_at_depth>=3', 'corruption_in_extension', 'corruption_in_embedded_object', 'stored_file_corrupted',
               'saved_bundle_corrupted', 'stream_input', 'call_raised_library_error', 'call_returned', 'atomicity_checked_store',
               'atomicity_checked_registry', 'list_add_prefix_checked', 'multi_site_corruption', 'observed_data_member_corrupted', 'two_toplevel_extensions',
-              'deep_nesting_injected', 'type_registered_after_first_parse', 'failing_type_registration', 'member_order_varied', 'bundle_given_to_filesystem_sink', 'observable_2.0_with_reference_scope']
+              'stored_file_replaced_by_non_object', 'deep_nesting_injected', 'type_registered_after_first_parse', 'failing_type_registration', 'member_order_varied', 'bundle_given_to_filesystem_sink', 'observable_2.0_with_reference_scope']
     rule = ('plans: 30-80 calls; each takes a valid object (every SDO/SRO type of both versions, 2.1 SCOs, SCOs with nested extensions, 2.0 '
             'observed-data with members, marking definitions, language-content), applies 1-3 wrong-kind replacements at plan-chosen sites of any '
             'depth (incl. values nested 120-1400 levels, i.e. up to what json.loads decodes in this interpreter), and delivers it through one of 16 entry points (parse of dict/text/stream, constructor, new_version, Bundle, '
@@ -407,6 +409,7 @@ class C17(Profile):
         if entry not in PARSE_ENTRIES and not in_parse:
             # raised by store-level processing after / outside the parse-construct step: not what the clause is about
             world.stat('store_level_exception:' + type(out.exc).__name__)
+            world.stat('store_level_exception@%s:%s:%s' % (entry, type(out.exc).__name__, where))
             return
         sig = 'C17.escape/%s/%s/%s' % (type(out.exc).__name__, where, self.entry_class(entry))
         if isinstance(out.exc, RecursionError) and self.deep_of(desc):
@@ -786,8 +789,21 @@ class C17(Profile):
             world.stat('build_failed')
             return
         stored = json.loads(sw.disk.raw_listing()[files[0]].decode('utf-8'))
-        bad, desc = corrupt(stored, [tuple(p) for p in op['picks']])
-        sw.disk.raw_write(files[0], json.dumps(bad).encode('utf-8'))
+        var = op['picks'][0][2]
+        if var % 6 == 0:
+            # the whole content of a *.json file is some other JSON value (not an object, or a bundle without a usable member):
+            # in place of the stored file, or as an extra file next to it that no add produced
+            whole = [[base['id']], [], 2, 'text', None, True, {'type': 'bundle', 'objects': {}}, {'type': 'bundle', 'objects': []},
+                     {'type': 'bundle'}, {'type': 'bundle', 'objects': [5]}, [[1, 2]], {}, {'type': 'bundle', 'objects': 'x'},
+                     {'type': 'bundle', 'id': C.mkid('bundle', i), 'objects': [None]}]
+            bad = whole[var // 6 % len(whole)]
+            desc = [dict(path='', prop='(whole file)', depth=0, kind='whole', was='object')]
+            target = files[0] if var // 6 // len(whole) % 2 else os.path.join(os.path.dirname(files[0]), 'index.json')
+            sw.disk.raw_write(target, json.dumps(bad).encode('utf-8'))
+            world.probe('stored_file_replaced_by_non_object')
+        else:
+            bad, desc = corrupt(stored, [tuple(p) for p in op['picks']])
+            sw.disk.raw_write(files[0], json.dumps(bad).encode('utf-8'))
         world.probe('stored_file_corrupted')
         src = s.FileSystemSource(root, allow_custom=op['allow_custom'])
         sw.disk.begin_op(op.get('ls_key', 0))
